@@ -145,7 +145,7 @@ func gen(gg *hx.Gen) {
 		}
 	}()
 	// ---- AEAD: every single-bit flip of ct‖tag, nonce, ad, key
-	nflip := g.Count(36, 400)
+	nflip := g.Count(36, 250)
 	for i := 0; i < nflip; i++ {
 		x := r.Intn(2)
 		L := hx.Pick(r, msgLens)
@@ -162,6 +162,11 @@ func gen(gg *hx.Gen) {
 			g.Emit("flips x=%d path=%s key=%s nonce=%s ad=%s ct=%s dst=%s cap=%d", x, p, hx.Hex(key), hx.Hex(nonce), hx.Hex(ad), hx.Hex(ct), hx.Hex(dst), spare)
 		}
 		g.StatN("aead.bitflips", 8*(len(ct)+len(nonce)+len(ad)+32))
+		g.StatN("aead.bitflips.ct+tag(x3paths)", 8*len(ct))
+		g.StatN("aead.bitflips.nonce(x3paths)", 8*len(nonce))
+		g.StatN("aead.bitflips.ad(x3paths)", 8*len(ad))
+		g.StatN("aead.bitflips.key(x3paths)", 8*32)
+		g.Stat(fmt.Sprintf("aead.flips.x=%d", x))
 	}
 	// ---- AEAD: truncation / extension / multi-byte changes / short inputs / valid
 	nopen := g.Count(1300, 40000)
@@ -215,6 +220,7 @@ func gen(gg *hx.Gen) {
 			g.Stat("aead.nonce-byte")
 		}
 		dst, spare := dstFor(r, max(0, len(ct)-16))
+		g.Stat(fmt.Sprintf("aead.open.x=%d(x3paths)", x))
 		for _, p := range paths {
 			g.Emit("open x=%d path=%s key=%s nonce=%s ad=%s ct=%s dst=%s cap=%d", x, p, hx.Hex(key), hx.Hex(nonce), hx.Hex(ad), hx.Hex(ct), hx.Hex(dst), spare)
 		}
@@ -231,6 +237,7 @@ func gen(gg *hx.Gen) {
 		dst, spare := dstFor(r, L)
 		g.Emit("sbflips key=%s nonce=%s box=%s dst=%s cap=%d", hx.Hex(key[:]), hx.Hex(nonce[:]), hx.Hex(bx), hx.Hex(dst), spare)
 		g.StatN("secretbox.bitflips", 8*(len(bx)+24+32))
+		g.StatN("secretbox.bitflips.nonce+key", 8*(24+32))
 	}
 	nso := g.Count(700, 20000)
 	for i := 0; i < nso; i++ {
